@@ -77,6 +77,7 @@ func runC04(c *Ctx) {
 	// sync.Map between its registration and its removal — an overwrite is one Store
 	c.ruleSingleStore("C04.swap")
 	c.ruleOneSection("C04.section")
+	c.ruleGoCapturedWrites("C04.goroutines")
 
 	c.pairingRule("C04.pairing", func(fn *ssa.Function) bool { return PkgPathOf(fn) == PkgRoot }, false)
 	r.Floor("C04.pairing", 10)
